@@ -1,10 +1,10 @@
 SPECIFICATION GSpec
 CONSTANTS
   Threads = {1, 2, 3}
-  MaxEvents = 5
+  MaxEvents = 4
   MaxDepth = 3
   Ordered = TRUE
-  Exits = FALSE
+  Exits = TRUE
 VIEW GView
 INVARIANTS TypeOK RecNested Bounded PrecOK
 PROPERTIES GSaveAgrees GLifeAgrees GRecordAgrees
